@@ -565,6 +565,16 @@ class ExprMixin:
             s.assume(z3.Implies(n > 0, v == z3.Concat(rest, z3.Unit(v[n - 1]))))
             return rest
 
+        if is_seq(v) and hi is None and lo is not None and z3.is_int_value(z3.simplify(lift(lo))) and z3.simplify(lift(lo)).as_long() >= 0:
+            # x[k:] with a literal k: the tail, with its defining equations instantiated (element j of the tail is element j + k of x)
+            k = z3.simplify(lift(lo)).as_long()
+            rest = fresh("tail", v.sort())
+            jq = z3.Int("sl!q")
+            s.assume(z3.Length(rest) == z3.If(n >= k, n - k, 0))
+            s.assume(z3.ForAll([jq], z3.Implies(z3.And(jq >= 0, jq < z3.Length(rest)), rest[jq] == v[jq + k])))
+            s.assume(rest == z3.SubSeq(v, z3.IntVal(k), z3.If(n >= k, n - k, 0)))
+            return rest
+
         def clamp(x, default):
             if x is None:
                 return default
